@@ -2,6 +2,7 @@ SPECIFICATION Spec
 CONSTANTS
   Shapes <- MC_Shapes
   OuterPairs <- MC_OuterPairs
+  KindsSel <- MC_KindsSel
   FixedNegAxis <- MC_FixedNegAxis
   FixedZeroDimOut <- MC_FixedZeroDimOut
   FixedOuterBool <- MC_FixedOuterBool
